@@ -4,11 +4,15 @@
   the reference machine has written at the corresponding point of its run (`output_in_search_order`,
   the output component of the refinement theorem C01_pure: the machine executes a print / print_list
   / nl goal exactly when depth-first search reaches it, once per execution, retries included); and the
-  local facts below. For programs with `!`, `not`, `time` the agreement of the output with the
+  local facts below; the same for programs with `!` in conjunctions and disjunctions nested to any depth
+  (`output_in_search_order_with_cut`, the output component of the refinement to the machine with cut and groups:
+  a goal the cut removed from the search is never executed, a goal after the cut is executed once).
+  For programs that mix `!` with `not`, and for `time`, the agreement of the output with the
   reference search is the output component of the engine-vs-machine comparison, run on every check.
 -/
 import SuironVerif.Lemmas.Exhausted
 import SuironVerif.Lemmas.EngineRefine
+import SuironVerif.Lemmas.GroupMachineProps
 namespace Suiron.C04
 
 /-- the text written so far, request after request, is the reference machine's (each trace entry pairs the
@@ -19,6 +23,19 @@ theorem output_in_search_order (fo : FloatOps) (kb : KB)
     (hmk : mkNode fo.showF kb (.call q) σ0 g0 = .ok (node, g1)) (hg : Spec.GOK g0) (fs : List Nat) :
     Spec.MRun fo kb ⟨[.goals [.call q] σ0], g0.counter, g0.out⟩ (Spec.askOut fo kb fs node g1) :=
   Spec.query_refines_machine fo kb (Spec.pureKB_of_rules kb hkb) q σ0 g0 g1 node hmk hg fs
+
+/-- the same for programs with the cut (bodies built from calls, built-ins, `!`, conjunctions and disjunctions): the
+    text written so far, request after request, is the text the machine with cut and groups has written — and that
+    machine's run is unique (`Spec.Grp.CRun.det`) -/
+theorem output_in_search_order_with_cut (fo : FloatOps) (kb : KB)
+    (hkb : ∀ key rs, kb.get key = some rs → ∀ r ∈ rs, r.body.isNil = true ∨ Spec.Grp.okG r.body = true)
+    (q : Term) (σ0 : Subst) (g0 g1 : G) (node : Node)
+    (hmk : mkNode fo.showF kb (.call q) σ0 g0 = .ok (node, g1)) (hg : Spec.GOK g0) (fs : List Nat) :
+    Spec.Grp.CRun fo kb ⟨[.goals [.g (.call q) 0] σ0], g0.counter, g0.out⟩ (Spec.askOut fo kb fs node g1) ∧
+    ∀ tr', Spec.Grp.CRun fo kb ⟨[.goals [.g (.call q) 0] σ0], g0.counter, g0.out⟩ tr' →
+      ∀ (i : Nat) (x y : Option Subst × List String), (Spec.askOut fo kb fs node g1)[i]? = some x → tr'[i]? = some y → x = y :=
+  have h := Spec.Grp.query_refines_group_machine fo kb (Spec.Grp.okKB_of_rules kb hkb) q σ0 g0 g1 node hmk hg fs
+  ⟨h, fun tr' hm i x y hx hy => Spec.Grp.CRun.det h hm i x y hx hy⟩
 
 /-- a built-in node runs its effect on the first request only: afterwards it is exhausted, and an
     exhausted node writes nothing. -/
